@@ -20,7 +20,7 @@ Flights == << [o |-> "A1", d |-> "A2", dist |-> 500, seats |-> 100, svc |-> "J",
               [o |-> "A2", d |-> "A1", dist |-> 500, seats |-> 150, svc |-> "J", acft |-> "320", days |-> {0, 2, 4, 6, 8, 10, 12}, min |-> 570],
               [o |-> "A1", d |-> "A3", dist |-> 2000, seats |-> 200, svc |-> "F", acft |-> "738", days |-> {0, 3, 6, 9, 12}, min |-> 1439],
               [o |-> "A3", d |-> "A4", dist |-> 6000, seats |-> 300, svc |-> "J", acft |-> "77W", days |-> {1, 2}, min |-> 0],
-              [o |-> "A4", d |-> "A1", dist |-> 7000, seats |-> 50, svc |-> "C", acft |-> "320", days |-> {13}, min |-> 720] >>
+              [o |-> "A4", d |-> "A1", dist |-> 7000, seats |-> 0, svc |-> "C", acft |-> "320", days |-> {13}, min |-> 720] >>    \* a freighter: no seats
 \* an instance is <<flight index, day>>; its departure minute since day 0
 Instances == {<<f, d>> : f \in 1..Len(Flights), d \in 0..13} \cap {x \in (1..Len(Flights)) \X (0..13) : x[2] \in Flights[x[1]].days}
 Dep(i) == i[2] * 1440 + Flights[i[1]].min
@@ -51,8 +51,9 @@ Spatials == {[comb |-> None, orig |-> None, dest |-> None, orig2 |-> None]}
 LegalSpatial(s) == /\ s.orig2.kind = "none"
                    /\ (s.comb.kind # "none" => s.orig.kind = "none" /\ s.dest.kind = "none")
 NoLimit == 9999
-Ranges == {<<0, NoLimit>>, <<500, NoLimit>>, <<501, NoLimit>>, <<0, 499>>, <<0, 500>>, <<500, 6000>>, <<2001, 5999>>}
-SeatRanges == {<<0, NoLimit>>, <<150, NoLimit>>, <<0, 100>>, <<101, 299>>}
+Ranges == {<<0, NoLimit>>, <<500, NoLimit>>, <<501, NoLimit>>, <<0, 499>>, <<0, 500>>, <<500, 6000>>, <<2001, 5999>>, <<0, 0>>}
+\* (a bound of 0 is a bound like any other: at most 0 seats selects the freighter, at most 0 km nothing)
+SeatRanges == {<<0, NoLimit>>, <<150, NoLimit>>, <<0, 100>>, <<101, 299>>, <<0, 0>>}
 SvcOpts == {{}, {"J"}, {"J", "F"}, {"C"}}
 AcftOpts == {{}, {"738"}, {"320", "77W"}}
 Filters == [dist : Ranges, seats : SeatRanges, svc : SvcOpts, acft : AcftOpts, sp : Spatials]
